@@ -11,7 +11,18 @@ from .. import absx, facts, ir, report, tsrules, il
 
 class ResultAdapter(tsrules.Adapter):
     observers = ('has_value', 'has_error', 'error')
-    empty_obs = (0, 0, 0)
+
+    def __init__(self, enum=None):
+        """enum: the error enum's facts; None (the enumerator) need not be the zero value"""
+        vals = {x['n']: int(x['v']) for x in (enum or {}).get('enumerators', [])}
+        self.none = vals.get('None', 0)
+        self.codes = sorted(set(vals.values())) or [0, 1, 2]
+        self.empty_obs = (0, 0, self.none)
+
+    def arg_domain(self, p, fn):
+        if p.get('enum'):
+            return [('val', v) for v in self.codes]
+        return None
 
     def expected_live(self, obs, alts):
         return [alts[0]] if obs[0] else []
@@ -19,9 +30,9 @@ class ResultAdapter(tsrules.Adapter):
     def post(self, fn, choice, before, after, obs_b, rv):
         out = []
         hv, he, err = after
-        if he and err == 0:
+        if he and err == self.none:
             out.append('reports an error but error() is None')
-        if not he and err != 0:
+        if not he and err != self.none:
             out.append('error() is %s without has_error()' % err)
         if hv and he:
             out.append('reports both a value and an error')
@@ -31,10 +42,10 @@ class ResultAdapter(tsrules.Adapter):
             out.append('clear() leaves %s' % (after,))
         single = choice[0] if len(choice) == 1 else None
         if single is not None and (fn.get('ctor') or n == 'operator='):
-            if single[0] == 'elem' and after != (1, 0, 0):
+            if single[0] == 'elem' and after != (1, 0, self.none):
                 out.append('assigning/constructing from a value yields %s' % (after,))
             if single[0] == 'val':
-                want = (0, 0, 0) if single[1] == 0 else (0, 1, single[1])
+                want = self.empty_obs if single[1] == self.none else (0, 1, single[1])
                 if after != want:
                     out.append('assigning/constructing from error code %s yields %s, expected %s' % (single[1], after, want))
         if fn.get('defaultctor') and after != self.empty_obs:
@@ -67,28 +78,29 @@ def pick_class(db, rect, pred):
     return qs
 
 
-def typestate(chk, db):
-    chk.rule('L', 'lifetime legality: construct only dead storage; destroy/assign/read only live storage', minimum=20)
-    chk.rule('I', 'accessor-visible state names exactly the live storage after every operation', minimum=20)
-    chk.rule('O', 'outside constructors an element is constructed only while the object reports empty', minimum=4)
-    chk.rule('K', 'copy keeps the source and equalises the destination; move empties the source; const members change nothing', minimum=10)
-    chk.rule('D', 'destructor leaves no live storage', minimum=2)
-    chk.rule('P', 'per-operation postconditions (clear, value/error assignment, default construction)', minimum=20)
+def typestate(chk, db, prefix=''):
+    chk.rule(prefix + 'L', 'lifetime legality: construct only dead storage; destroy/assign/read only live storage', minimum=20)
+    chk.rule(prefix + 'I', 'accessor-visible state names exactly the live storage after every operation', minimum=20)
+    chk.rule(prefix + 'O', 'outside constructors an element is constructed only while the object reports empty', minimum=4)
+    chk.rule(prefix + 'K', 'copy keeps the source and equalises the destination; move empties the source; const members change nothing', minimum=10)
+    chk.rule(prefix + 'D', 'destructor leaves no live storage', minimum=2)
+    chk.rule(prefix + 'P', 'per-operation postconditions (clear, value/error assignment, default construction)', minimum=20)
     targets = []
     nontrivial = lambda q: 'std::basic_string<char' in q or 'NonTrivial' in q
-    for q in pick_class(db, 'nop::Result', lambda q: nontrivial(q) and 'void>' not in q)[:1]:
-        targets.append((q, ResultAdapter(), 'Result<E,' + ('std::string' if 'basic_string' in q else 'T') + '>'))
+    for q in pick_class(db, 'nop::Result', lambda q: nontrivial(q) and 'void>' not in q and (q.startswith('nop::Result<Err,') or q.startswith('nop::Result<Err2,'))):
+        en = q[len('nop::Result<'):].split(',')[0]
+        targets.append((q, ResultAdapter(db.enums.get(en)), 'Result<%s,' % en + ('std::string' if 'basic_string' in q else 'T') + '>'))
     for q in pick_class(db, 'nop::Optional', lambda q: nontrivial(q) and '::' not in q.split('>')[-1])[:2]:
         targets.append((q, OptionalAdapter(), 'Optional<' + ('std::string' if 'basic_string' in q else 'NonTrivial') + '>'))
-    if len(targets) < 2:
-        chk.unanalysable('L', 'nop/types', 'Result/Optional instances over a non-trivial element type not found in the probes')
+    if len(targets) < 4:
+        chk.unanalysable(prefix + 'L', 'nop/types', 'Result/Optional instances over a non-trivial element type not found in the probes')
     for q, ad, label in targets:
         try:
             ex = tsrules.Explorer(db, q, ad, label).run()
         except absx.Unsupported as e:
-            chk.unanalysable('L', label, str(e))
+            chk.unanalysable(prefix + 'L', label, str(e))
             continue
-        tsrules.report(chk, ex)
+        tsrules.report(chk, ex, prefix)
         chk.extra.setdefault('typestate', {})[label] = {'reachable_states': len(ex.states), 'transitions': ex.transitions}
 
 
